@@ -719,6 +719,16 @@ theorem next_tail_orig_drops_falsy_exception (e : ε) :
   simp only [step, hc, hb, ha] at h
   cases he : s.error <;> simp [he] at h <;> subst h <;> simp [nextTail]
 
+/-- **Why `_active` must be cleared under the lock.**  In the variant whose exception handler executes
+`self._active = False` before entering `with self._cond:`, the consumer can run between the two
+writes: it finds the iterator inactive, the buffer empty and no error yet, and reports a clean
+`StopIteration`; the source's exception only shows on a later `next()`.  (With the handler as it
+is — one critical section, the `fail` step — `prefetch_iterator_all_schedules` excludes this.) -/
+theorem prefetch_iterator_unlocked_active_counterexample :
+    (runUnlockedActive 1 (.raises 7) [.ctor, .ctor, .ctor, .fetch, .fail, .next, .fail, .next]
+        ⟨init ([] : List Nat), none⟩).map (·.s.out)
+      = some [Obs.stop, Obs.exc 7] := by decide
+
 /-- `buffer_size = 0` is an excluded point, not covered by `prefetch_iterator_no_deadlock`: after the
 first item the producer waits for `len(buffer) < 0` and the consumer for an item — nothing but
 `close()` can move. -/
